@@ -367,6 +367,15 @@ def mc_cli_scripts(ctx, consts, rng, limit=None, sid0=1000000, workers=6):
     wt = [conv_chunks(w) for w in res["lines"]["W"][0]]
     paths = res["T"]
     total = len(paths)
+    # vacuity: every kind of event of the model must label some explored transition
+    labels = sorted({(p[-1]["e"], p[-1]["k"]) for p in paths if p})
+    want = {("key", k) for k in ("char", "bs", "left", "right", "up", "down", "tab", "enter")}
+    if consts.get("WithApi"):
+        want |= {("write", ""), ("prompt", "")}
+    missing = want - set(labels)
+    if missing:
+        raise vlib.ToolError("MC_Cli explored no transition labelled %s (vacuous model)" % sorted(missing))
+    ctx.extra["mc_cli_event_kinds_covered"] = ["%s:%s" % l for l in labels]
     if limit is not None and total > limit:
         paths = rng.sample(paths, limit)
     cfg = {"cmd": consts["CmdCap"], "hcap": consts["HistCap"], "set": consts.get("NameSet", "tiny"), "prompt": 0}
